@@ -45,6 +45,11 @@ pub fn adv_scripts() -> Vec<Script> {
             seq(call("M", "arr0", vec![], sc("xs")), seq(fold(var("xs"), "i", par(call("B", "g", vec![var("i")], st("$r")), I::Next("i".into()))), seq(canon("A", "$r", "#r"), call("A", "obs", vec![Arg::Canon("#r".into())], Out::None)))),
         ),
         mk("same-args-two-sites", seq(seq(call("B", "user_input", vec![Arg::Str("k".into())], st("$in")), call("B", "auth_get", vec![Arg::Str("k".into())], st("$ok"))), seq(call("M", "relay", vec![], Out::None), seq(canon("A", "$ok", "#ok"), call("A", "open", vec![Arg::Canon("#ok".into())], Out::None))))),
+        mk("stream-fold-par", seq(par(call("B", "w1", vec![], st("$s")), call("M", "w2", vec![], st("$s"))), seq(fold(Arg::Stream("$s".into()), "i", par(call("A", "v", vec![var("i")], st("$r")), I::Next("i".into()))), seq(canon("A", "$r", "#r"), call("A", "obs", vec![Arg::Canon("#r".into())], Out::None))))),
+        mk("xor-recover", seq(xor(call("B", "fail1", vec![], sc("x")), call("M", "rec", vec![], sc("x"))), seq(call("B", "g", vec![var("x")], sc("y")), call("A", "use", vec![var("x"), var("y")], sc("z"))))),
+        mk("new-scope", new("$n", seq(call("M", "w", vec![], st("$n")), seq(call("B", "w2", vec![], st("$n")), seq(canon("A", "$n", "#cn"), call("A", "obs", vec![Arg::Canon("#cn".into())], sc("o"))))))),
+        mk("lens-target", seq(call("M", "ptab", vec![], sc("t")), seq(I::Call { peer: PeerRef::Lens("t".into(), ".B".into()), svc: "s".into(), func: "g".into(), args: vec![Arg::Lens("t".into(), ".A".into())], out: sc("y") }, call("A", "fin", vec![var("y")], sc("z"))))),
+        mk("empty-canon", seq(call("M", "f1", vec![], sc("x")), seq(canon("M", "$e", "#ce"), seq(call("B", "g", vec![Arg::Canon("#ce".into())], sc("y")), call("A", "obs", vec![Arg::Canon("#ce".into()), var("x"), var("y")], sc("o")))))),
         mk("map", seq(seq(call("B", "k1", vec![], sc("v1")), call("M", "k2", vec![], sc("v2"))), seq(I::ApMap { key: Arg::Str("a".into()), value: var("v1"), map: "%m".into() }, seq(I::ApMap { key: Arg::Str("b".into()), value: var("v2"), map: "%m".into() }, seq(I::Canon { peer: PeerRef::Name("A".into()), src: "%m".into(), dst: "#%cm".into() }, call("A", "obs", vec![Arg::CanonMap("#%cm".into())], Out::None)))))),
     ]
 }
